@@ -200,7 +200,7 @@ func runRefsCase(r *rng) (coq string, ops []refOp, fails []OracleFailure, nOK in
 	}
 	n := r.rangeI(3, 18)
 	for i := 0; i <= n; i++ {
-		kind := r.pick([]int{14, 6, 16, 12, 6, 6, 5, 3, 18, 8, 6})
+		kind := r.pick([]int{14, 6, 16, 12, 6, 6, 5, 3, 18, 8, 6, 5})
 		if i == n {
 			kind = 8
 		}
@@ -258,6 +258,10 @@ func runRefsCase(r *rng) (coq string, ops []refOp, fails []OracleFailure, nOK in
 				steps = append(steps, fmt.Sprintf("Do (UseStyle %d%%N)", w.atom(id)))
 			}
 			ops = append(ops, refOp{Kind: "GenerateTOC"})
+		case 11: // RestartNumbering on its own - also as the first list call on a document, also of a list that does not exist
+			id := []string{"1", "2", "9", "9", "x", ""}[r.intn(6)]
+			d.RestartNumbering(id)
+			ops = append(ops, refOp{Kind: "RestartNumbering", ID: id})
 		case 5: // list item
 			d.AddListItem("item", &document.ListConfig{Type: document.ListTypeNumber, StartNumber: 1 + r.intn(3)})
 			if w.foreignNumbering {
